@@ -62,7 +62,7 @@ def execute(case, tape):
     return out
 
 
-BUDGET = {"quick": (40000, 60), "thorough": (800000, 900)}
+BUDGET = {"quick": (120000, 75), "thorough": (2400000, 1500)}
 REAL = ["pydcop.algorithms.mgm", "pydcop.algorithms.mgm2", "pydcop.algorithms.dsa",
         "pydcop.dcop.relations", "pydcop.computations_graph.constraints_hypergraph",
         "pydcop.infrastructure.computations"]
